@@ -33,7 +33,16 @@ def mk_component(c):
 
 
 def mk_bf3(case):
-    return Bf3File(dict(case.get("comments", [])), [mk_component(c) for c in case["comps"]])
+    """Component specs that are EQUAL (the strategies repeat one on purpose) become ONE Bf3Component object listed at several positions:
+    a file may hold the same object twice, and nothing may depend on object identity or list.index()."""
+    objs, comps = [], []
+    for c in case["comps"]:
+        hit = next((o for spec, o in objs if spec == c), None)
+        if hit is None:
+            hit = mk_component(c)
+            objs.append((c, hit))
+        comps.append(hit)
+    return Bf3File(dict(case.get("comments", [])), comps)
 
 
 def obs_component(c):
